@@ -10,8 +10,14 @@ from vf.spec.expect import (Expectation, dt_instants, num_equal, CODE_OF_DTYPE, 
                             ENUM_MEMBERS, local_tz)
 from vf.spec.table import TYPES, ANY, SET_TYPE_TO_KIND
 
-FIXED_CODE = {'text': {20}, 'ident': {19}, 'uvari': {18}, 'unorm': {16}, 'ushort': {15}, 'encrypted': {15},
-              'fdoubl': {7}, 'status': {26}, 'dim': {18}, 'dtime': {21}}
+# Acceptable representation codes per attribute kind. The property asks for an equal value under the standard label "in
+# the chosen representation code", so any code of the right class that represents the value is accepted (the exact codes
+# RP66 prescribes per attribute are not demanded).
+TEXT_CODES = {19, 20, 27}
+INT_CLASS = {12, 13, 14, 15, 16, 17, 18, 22}
+FIXED_CODE = {'text': TEXT_CODES, 'ident': TEXT_CODES, 'uvari': INT_CLASS, 'unorm': INT_CLASS, 'ushort': INT_CLASS,
+              'encrypted': INT_CLASS | {26}, 'fdoubl': set(range(1, 12)), 'status': {26, 15}, 'dim': INT_CLASS,
+              'dtime': {21}}
 
 
 def map_objects(dlf, exp, i):
@@ -108,15 +114,14 @@ def compare_attr(dlf, da, ea, opmap, where, alt_units=None, alt_values=None):
     k = ea.kind
     fixed = FIXED_CODE.get(k.split(':')[0] if ':' in k else k)
     if k.startswith('soft:') or k.startswith('hard:'):
-        fixed = {19}
+        fixed = TEXT_CODES
     if fixed and da.code not in fixed:
-        out.append(('attr-code', lab, f"{where}: {lab} written with code {da.code}, standard prescribes {sorted(fixed)}"))
+        out.append(('attr-code', lab, f"{where}: {lab} written with code {da.code}, not one of the class {sorted(fixed)}"))
     for n, (dv, ev) in enumerate(zip(da.values, exp_vals)):
         ok = True
         if k in ('ref', 'anyref') or (k == 'reftext' and isinstance(ev, dict)):
-            want = 24 if ea.a.code == 'OBJREF' else 23
-            if da.code != want:
-                out.append(('attr-code', lab, f"{where}: {lab} reference written with code {da.code}, expected {want}"))
+            if da.code not in (23, 24):
+                out.append(('attr-code', lab, f"{where}: {lab} reference written with code {da.code}, not OBNAME/OBJREF"))
                 break
             found = resolve_reference(dlf, dv, da.code, ea.a.targets)
             tgt = opmap.get(ev['$ref'])
